@@ -203,6 +203,7 @@ func init() {
 	}
 
 	H := harnessName
+	intrinsics[H("vP")] = func(in *Interp, fr *frame, args []Value) Value { return "/v/" + args[0].(string) }
 	intrinsics[H("vFSExists")] = func(in *Interp, fr *frame, args []Value) Value {
 		_, ok := in.ghost.vfs.files[args[0].(string)]
 		return ok
